@@ -161,6 +161,7 @@ func schemaNorm(ns []GT) []GT {
 var builtinToggle uint32
 
 func parseSchemaReal(src string) (tree []GT, ok bool, crash string) {
+	defer guard("parser.ParseSchema", src)()
 	defer func() {
 		if r := recover(); r != nil {
 			crash = fmt.Sprintf("panic: %v", r)
